@@ -15,12 +15,15 @@ DOMAIN['reindent_aligned'] = ['unset']
 def run(ctx):
     quick = ctx.tier == 'quick'
     rng = random.Random(ctx.seed)
+    # design level + binding: StripWhitespaceFilter on one token list, all lists up to the bound (StripWs.tla)
+    from .. import stripwsrun
+    stripwsrun.run(ctx, quick)
     opts = fmtfam.option_states(ctx, DOMAIN, PID + '_options')
     opts = [o for o in opts if any(o['opt'][k] == 'true' for k in ('strip_whitespace', 'use_space_around_operators', 'reindent', 'indent_columns'))]
     ctx.cov['option_states'] = len(opts)
     simple = [o for o in opts if o['opt']['reindent'] == 'unset' and o['opt']['indent_columns'] == 'unset']
-    progs = sqlprog.programs(ctx, 250 if quick else 1500, PID + '_progs', seed=ctx.seed * 9 + 1)
-    progs += sqlprog.programs(ctx, 100 if quick else 600, PID + '_progs_small', fuel=10, maxout=40, seed=ctx.seed * 9 + 2)
+    progs = sqlprog.programs(ctx, 400 if quick else 1500, PID + '_progs', seed=ctx.seed * 9 + 1)
+    progs += sqlprog.programs(ctx, 200 if quick else 600, PID + '_progs_small', fuel=10, maxout=40, seed=ctx.seed * 9 + 2)
     traces, meta = [], []
     unspellable = 0
     for p in progs:
